@@ -27,7 +27,7 @@ RULE = ("per case one synthetic GAF of 1-300 (thorough up to 3000) records, 1-6 
 ASSUMPTIONS = ["files without any primary record are outside the domain (the averages are undefined)",
                "'Average mapping quality', the >=50 bp sub-counts and 'perfect alignments' are not named by the property and are only checked for order invariance",
                "tp:A values are P, S or I; read names without spaces",
-               "averages are compared at the printed precision +-1 unit in the last place (the tool rounds a float sum)"]
+               "the two best-ratio averages must print as the three-decimal number nearest to the exact rational average; only within 1e-10 of a middle between two printable numbers both are accepted (a sum of doubles cannot tell); between two orders of the same records a printed float may differ by one unit in the last place"]
 
 
 def plan(tier):
